@@ -126,6 +126,7 @@ func init() {
 	Properties["C03"] = &PropertySpec{
 		Modules: bt,
 		Rules: []Rule{
+			R81(),
 			R71(),
 			R64(),
 			Only(R59(), `^a/|^d/`, `^f/`),
@@ -397,6 +398,7 @@ func init() {
 	Properties["C18"] = &PropertySpec{
 		Modules: bt,
 		Rules: []Rule{
+			R81(),
 			R71(),
 			Only(R59(), `^a/`, `^f/`),
 			R06(),
